@@ -9,7 +9,7 @@ from .common import MachineryError
 
 class _D(dict):
     def __missing__(self, k):
-        if k in ('kf4', 'peertls', 'creds', 'peerauth'):
+        if k in ('kf4', 'kf5', 'peertls', 'creds', 'peerauth'):
             return 'FALSE'
         if k == 'tls':
             return '"off"'
@@ -26,6 +26,7 @@ CONSTANTS
   NMsg = %(nmsg)d
   KF_RsetBypass = %(kf3)s
   KF_RcptBeforeMail = %(kf4)s
+  KF_HeloReportsEhlo = %(kf5)s
   KF_FlushOutside = %(kf1)s
   KF_FirstRcptClass = %(kf2)s
   Tls = %(tls)s
@@ -143,6 +144,8 @@ def relayclient_design_jobs(wd, kf_first_in_code):
                  'cfg': cfg('rcd_kf1.cfg', kf1='TRUE'), 'expect_violation': ['C14_Bounded']})
     jobs.append({'name': 'deviation KF_RcptBeforeMail (seeded change C06c-m2): TLC must find the refused sender reported with the class of the 503s',
                  'module': 'RelayClient', 'cfg': cfg('rcd_kf4.cfg', kf4='TRUE'), 'expect_violation': ['C11_MailVerdict', 'C11_Class']})
+    jobs.append({'name': 'deviation KF_HeloReportsEhlo (seeded change C11g-m2): TLC must find the deferred HELO reported as a permanent failure',
+                 'module': 'RelayClient', 'cfg': cfg('rcd_kf5.cfg', kf5='TRUE', nr=1, pipe='FALSE'), 'expect_violation': ['C11_Class']})
     jobs.append({'name': 'deviation KF_FirstRcptClass (D28%s): TLC must find the recipient reported with the wrong class'
                          % (' as found' if not kf_first_in_code else ', the code as it is'), 'module': 'RelayClient',
                  'cfg': cfg('rcd_kf2.cfg', kf2='TRUE'), 'expect_violation': ['C11_OwnClass']})
